@@ -86,9 +86,10 @@ def keysets(t, path=()):
     return out
 
 
-def instances(obj, spec, path):
+def instances(obj, spec, path, templates=False):
     """Live sub-aggregators that instantiate the spec node at `path` (a template slot of a sparse container is
-    instantiated once per existing bin, possibly never)."""
+    instantiated once per existing bin, possibly never).  With templates=True the value template of a live sparse
+    container counts as well (it is what a bin taken over from another operand is checked against)."""
     cur = [(obj, spec)]
     i = 0
     path = list(path)
@@ -112,6 +113,8 @@ def instances(obj, spec, path):
                     nxt += [(v, s["value"]) for v in o.values]
                 elif k in ("SparselyBin", "Categorize"):
                     nxt += [(v, s["value"]) for v in o.bins.values()]
+                    if templates and getattr(o, "value", None) is not None:
+                        nxt.append((o.value, s["value"]))
                 elif k in ("CentrallyBin", "IrregularlyBin", "Stack"):
                     nxt += [(v, s["value"]) for _, v in o.bins]
                 elif k == "Fraction":
